@@ -48,6 +48,14 @@ def run(ctx) -> None:
         progs.append(esc_case("say \\'hi\\'", "say \\'hi\\'", "say 'hi'", org))
         progs.append(esc_case("\\'", "\\'", "'", org))
         progs.append(esc_case("a\\'b", "a\\'b", "a'b", org))
+    # characters without an ASCII code emit nothing; the layout must agree (a label follows)
+    def ascii_case(src_text, org):
+        return {"rom": "low", "defines": [], "body": [{"k": "stareq", "e": apr.num(org)},
+                {"k": "ascii", "s": [ord(c) for c in src_text if ord(c) < 128], "src": src_text}, {"k": "label", "n": "after"},
+                {"k": "data", "d": "dl", "es": [apr.ident("after")]}, {"k": "ascii", "s": [ord(c) for c in "tail"]}]}
+    for org in (0x008000, 0x00FFFA):
+        for t in ("caf\u00e9 au lait", "\u00fcber", "Pok\u00e9mon \u4e2d", "\u00e9"):
+            progs.append(ascii_case(t, org))
     # seeded larger programs rich in data directives
     n = 200 if ctx.quick else 3000
     progs += [apr.gen_program(ctx.seed * 104729 + k, size=12, macros=False) for k in range(n)]
